@@ -761,7 +761,7 @@ func danglingIndex(t *rapid.T, c *wasmenc.Module) ([]byte, string) {
 		return uint32(v)
 	}
 	b := wasmenc.NewB()
-	kind := rapid.SampledFrom([]string{"ref.func+declare", "ref.func+declare", "ref.func+declare", "ref.func", "call", "global.get", "local.get", "br", "call_indirect-type", "call_indirect-table", "table.get", "elem.drop", "data.drop", "export", "start", "elem-item"}).Draw(t, "dangling")
+	kind := rapid.SampledFrom([]string{"ref.func+declare", "ref.func+declare", "ref.func+declare", "ref.func", "call", "global.get", "local.get", "br", "call_indirect-type", "call_indirect-table", "table.get", "elem.drop", "data.drop", "export", "start", "elem-item", "callee-type", "callee-type"}).Draw(t, "dangling")
 	switch kind {
 	case "ref.func+declare", "ref.func":
 		f := at(nfuncs)
@@ -780,6 +780,14 @@ func danglingIndex(t *rapid.T, c *wasmenc.Module) ([]byte, string) {
 		}
 	case "call":
 		b.Call(at(nfuncs))
+	case "callee-type":
+		// an earlier function calls a later function whose type index dangles
+		if len(c.Funcs) >= 2 {
+			j := rapid.IntRange(1, len(c.Funcs)-1).Draw(t, "callee")
+			i := rapid.IntRange(0, j-1).Draw(t, "caller")
+			c.Funcs[j].Type = at(uint32(len(c.Types)) + 1)
+			c.Funcs[i].Body = wasmenc.NewB().Call(nimp + uint32(j)).Unreachable().Bytes()
+		}
 	case "global.get":
 		b.GlobalGet(at(impGlobals + uint32(len(c.Globals)))).Drop()
 	case "local.get":
